@@ -51,7 +51,7 @@ CLAIMED = {
    note='ASSUMED: base64, sha256, hex and the three codecs are their standard functions (uninterpreted b64, sha256raw, hexenc, marshalS); GetFormat is under an assumed contract (table lookup); fmt %v is uninterpreted; that $decode inverts $encode is the codec round trip of third-party libraries (not under contract).'),
  'C15': dict(cat='other', ref='DESIGN.md §4 C15',
    text='The round trip is the postcondition itself: for every "$"-free, null-free target and any base, diff/diffMap/diffMapMap/diffList are proved to return nil exactly when target = base, and otherwise a layer L with not mergeErr(base, L) and mergeF(base, L) = target - the same mergeF/mergeErr that merge is proved against in C01 - outside the classes of finding F13 (kindBad: a container changing kind where the merge rules reject the override).',
-   note='diffListList is under an ASSUMED contract (trusted, body not verified) that only covers list pairs that are equal or fall back to whole-list $replace; entry-level list patches (added/deleted map entries, reordering, duplicates, partial-match deletes) are not claimed - they are finding F13; reflect.DeepEqual is modelled as structural equality; main/diffDoc ($match: {}) are not under contract.'),
+   note='For lists the clause is proved for pairs that are equal or that take the whole-list $replace fallback (a removed entry that is not a map): diffListList is verified for exactly those (four loop invariants, staged lemmas about the appended {$replace: true} marker); entry-level list patches (added/deleted map entries, reordering, duplicates, partial-match deletes) are not claimed - findings F13a/F13b are replayed on the real bkld+bkl on every run; reflect.DeepEqual is modelled as structural equality; main/diffDoc ($match: {}) are not under contract.'),
  'C16': dict(cat='proof', ref='DESIGN.md §4 C16',
    text='intersect/intersectMap/intersectMapMap/intersectList/intersectListList are proved to return interF(a,b) (a map keeps exactly the keys present in both, equal scalars are kept, present-in-both-but-different becomes "$required", lists keep the entries of the first that occur in the second, each once) and, as a separate clause proved through the recursion of the code itself, intersect(a,a) = a.',
    note='The left fold over the input files in main and the lossless-migrate composition with bkld (C15, whose list case is assumed) are not proved; reflect.DeepEqual is modelled as structural equality.'),
